@@ -110,7 +110,7 @@ class C09(Prop):
         tsamp = rng.choice((1e-3, 64e-6, 5e-4))
         dm = rng.choice((0.0, 1.0, 3.5, 10.0, 15.0, 25.0, 40.0, -2.0, -10.0, -15.0))
         ref = rng.choice(("ch1", "ch1", "max", "min", "center", "num"))
-        n = rng.choice((8, 16, 40, 100))
+        n = rng.choice((8, 16, 40, 100)) if path != "read_dedisp" else rng.choice((1, 2, 3, 8, 16, 40))
         return {"path": path, "C": C, "foff": foff, "fch1": fch1, "tsamp": tsamp, "dm": dm, "ref": ref, "n": n,
                 "ndm": rng.choice((1, 3, 3, 8, 33, 64)), "s": rng.choice((0, 2)), "g": rng.choice((3, 7, 64))}
 
@@ -131,6 +131,13 @@ class C09(Prop):
         from sigpyproc.header import Header
         return Header(filename="x.fil", data_type="filterbank", nchans=case["C"], foff=case["foff"], fch1=case["fch1"],
                       nbits=32, tsamp=case["tsamp"], tstart=58000.0, nsamples=nsamples)
+
+    @staticmethod
+    def _rd_geom(case, d):
+        """(file length, start) of a `read_dedisp` case: the file holds every delayed window, whatever the delays -
+        blocks much shorter than the delay step between adjacent channels included"""
+        s = case["s"] + max(0, -min(d))
+        return s + case["n"] + max(0, max(d)) + 3, s
 
     def _ref(self, case, h):
         return {"num": float(h.fch1 + 0.37 * h.foff * h.nchans)}.get(case["ref"], case["ref"])
@@ -158,7 +165,7 @@ class C09(Prop):
             bref = ref if path in ("blk_roll", "blk_valid", "inverse", "dmt", "dmt_valid") else "ch1"
             d = np.atleast_1d(h.get_dmdelays(dm, ref_freq=bref))
             res["delays"] = [int(v) for v in d]
-            if int(np.abs(d).max()) >= n:
+            if int(np.abs(d).max()) >= n and path != "read_dedisp":
                 return {"skip": True}
             blk = FilterbankBlock(x.T.astype(np.float32), h)
             if path == "blk_roll":
@@ -182,11 +189,12 @@ class C09(Prop):
                            dms=[float(v) for v in o.dms], ddelays=[[int(v) for v in r] for r in dd])
             else:
                 dd = common.tmpdir()
-                N = n + 6
+                N, s = (n + 6, case["s"]) if path == "stream" else self._rd_geom(case, [int(v) for v in d])
+                if N * C > 60000:
+                    return {"skip": True}
                 xx = unique_block(C, N)
                 p = spfiles.write_fil(dd / "in.fil", xx, 32, fch1=case["fch1"], foff=case["foff"], tsamp=case["tsamp"])
                 fil = FilReader(str(p))
-                s = case["s"]
                 try:
                     if path == "stream":
                         ts = fil.dedisperse(dm, gulp=case["g"], start=s, nsamps=n, quiet=True)
@@ -260,9 +268,8 @@ class C09(Prop):
                     return None
                 want = np.array([[sum(x[c, t + off2 + D[i][c]] for c in range(C)) for t in range(L)] for i in range(len(D))])
         else:
-            N = n + 6
+            N, s = (n + 6, case["s"]) if path == "stream" else self._rd_geom(case, d)
             xx = unique_block(C, N).T.astype(np.float64)
-            s = case["s"]
             if path == "stream":
                 L = n - md - off
                 want = np.array([[sum(xx[c, s + t + off + d[c]] for c in range(C)) for t in range(L)]])
@@ -300,10 +307,12 @@ class C09(Prop):
         if path == "stream":
             return []     # the streamed path is the C06 model (Reduce.dedisperse)
         if path == "read_dedisp":
-            N = n + 6
+            N, s0 = self._rd_geom(case, d)
+            if N * C > 4000:
+                return []          # long files: oracle only (the exact-model driver is slow on them)
             x = unique_block(C, N).T
             flat = " ".join(str(int(v)) for v in x.ravel())
-            return [f"C09 readdedisp {C} {N} 1 {case['s']} {n} {' '.join(map(str, d))} {flat}"]
+            return [f"C09 readdedisp {C} {N} 1 {s0} {n} {' '.join(map(str, d))} {flat}"]
         x = unique_block(C, n).T
         flat = " ".join(str(int(v)) for v in x.ravel())
         if path in ("dmt", "dmt_valid"):
